@@ -137,35 +137,51 @@ Fixpoint skip_blob_loop (fuel : nat) (c : Z) : M unit :=
     tdo '(c2, _) <- t_skip_lob_whitespace;
     if c2 =? -1 then fail else skip_blob_loop f c2
   end.
+(* skipBlobHelper, blob or clob: the text of a clob is skipped as the string it is *)
 Definition skip_blob_helper : M unit :=
   tdo '(c, _) <- t_skip_lob_whitespace;
+  tdo c <-
+    (if c =? c_dquote then
+       tdo _ <- skip_string_helper;
+       tdo '(c2, _) <- t_skip_lob_whitespace; ret c2
+     else if c =? c_quote then
+       tdo ok <- t_is_triple_quote;
+       if negb ok then fail else
+       tdo _ <- skip_long_string_helper HEnsureNoComments;
+       tdo '(c2, _) <- t_skip_lob_whitespace; ret c2
+     else ret c);
   tdo _ <- with_fuel (fun f => skip_blob_loop f c);
   t_expect (fun c => c =? c_rbrace).
 Definition skip_blob : M Z := tdo _ <- skip_blob_helper; t_read.
 
-(* skipContainerHelper(term); term is always one of ] ) } here, so the entry panic is unreachable *)
-Fixpoint skip_container_helper (fuel : nat) (term : Z) : M unit :=
+(* skipContainerHelper(term): [terms] are the terminators of the containers we are inside of, innermost
+   first (the Go slice, innermost last).  term is always one of ] ) } here, so the entry panic is unreachable. *)
+Fixpoint skip_container_loop (fuel : nat) (top : Z) (terms : list Z) : M unit :=
   match fuel with
   | O => nofuel
   | S f =>
     tdo '(c, _) <- t_skip_whitespace;
     if c =? -1 then fail
-    else if c =? term then ret tt
-    else if c =? c_dquote then tdo _ <- skip_string_helper; skip_container_helper f term
+    else if c =? top then
+      match terms with
+      | [] => ret tt
+      | t1 :: rest => skip_container_loop f t1 rest
+      end
+    else if c =? c_dquote then tdo _ <- skip_string_helper; skip_container_loop f top terms
     else if c =? c_quote then
       tdo ok <- t_is_triple_quote;
       tdo _ <- (if ok then skip_long_string_helper HSkipComments else skip_symbol_quoted_helper);
-      skip_container_helper f term
-    else if c =? c_lparen then tdo _ <- skip_container_helper f c_rparen; skip_container_helper f term
-    else if c =? c_lbracket then tdo _ <- skip_container_helper f c_rbracket; skip_container_helper f term
+      skip_container_loop f top terms
+    else if c =? c_lparen then skip_container_loop f c_rparen (top :: terms)
+    else if c =? c_lbracket then skip_container_loop f c_rbracket (top :: terms)
     else if c =? c_lbrace then
       tdo c2 <- t_peek;
-      tdo _ <- (if c2 =? c_lbrace then tdo _ <- t_read; skip_blob_helper
-                else if c2 =? c_rbrace then tdo _ <- t_read; ret tt
-                else skip_container_helper f c_rbrace);
-      skip_container_helper f term
-    else skip_container_helper f term
+      if c2 =? c_lbrace then tdo _ <- t_read; tdo _ <- skip_blob_helper; skip_container_loop f top terms
+      else if c2 =? c_rbrace then tdo _ <- t_read; skip_container_loop f top terms
+      else skip_container_loop f c_rbrace (top :: terms)
+    else skip_container_loop f top terms
   end.
+Definition skip_container_helper (fuel : nat) (term : Z) : M unit := skip_container_loop fuel term [].
 Definition t_skip_container_helper (term : Z) : M unit := with_fuel (fun f => skip_container_helper f term).
 Definition skip_container (term : Z) : M Z := tdo _ <- t_skip_container_helper term; t_read.
 
